@@ -80,6 +80,7 @@ func Build(work string, mq *runner.Moq, t *gen.Tree, rng *rand.Rand, variants []
 	}
 	type req struct {
 		spec MockSpec
+		more []MockSpec // further mocks of the same invocation (joint requests)
 		args []string
 		out  []byte
 		ok   bool
@@ -114,6 +115,49 @@ func Build(work string, mq *runner.Moq, t *gen.Tree, rng *rand.Rand, variants []
 		}
 		k++
 	}
+	// joint requests: several interfaces mocked by ONE invocation into one file of the source package (state that moq
+	// carries from one mock of a run to the next - caches, name sets, import aliases - only shows there)
+	for jr, names := range t.FixedRequests {
+		if jr >= 12 {
+			break
+		}
+		c := cfgs[jr%4]
+		args := cfgArgs(c[0], c[1])
+		skip := jr%3 == 1
+		var specs []MockSpec
+		file := filepath.Join(t.SrcDir, fmt.Sprintf("zz_mock_joint%d.go", jr))
+		okReq := len(names) > 0
+		var pairs []string
+		for _, n := range names {
+			var ifc *gen.Iface
+			for _, x := range t.Ifaces {
+				if x.Name == n {
+					ifc = x
+				}
+			}
+			if ifc == nil || !ifc.Exportable || ifc.IsAlias {
+				okReq = false
+				break
+			}
+			if ifc.NeedsSkipEnsure {
+				skip = true
+			}
+			name := fmt.Sprintf("%sJ%d", ifc.Name, jr)
+			specs = append(specs, MockSpec{Iface: ifc, Name: name, Stub: c[0], Resets: c[1], File: file, Shape: ifc.Shape()})
+			pairs = append(pairs, ifc.Name+":"+name)
+		}
+		if !okReq {
+			continue
+		}
+		if skip {
+			args = append(args, "-skip-ensure")
+			for i := range specs {
+				specs[i].SkipEnsure = true
+			}
+		}
+		args = append(append(args, "."), pairs...)
+		reqs = append(reqs, &req{spec: specs[0], more: specs[1:], args: args})
+	}
 	if maxMocks > 0 && len(reqs) > maxMocks {
 		rng.Shuffle(len(reqs), func(i, j int) { reqs[i], reqs[j] = reqs[j], reqs[i] })
 		reqs = reqs[:maxMocks]
@@ -130,7 +174,11 @@ func Build(work string, mq *runner.Moq, t *gen.Tree, rng *rand.Rand, variants []
 			dest, pkg = ostatic.DestOther, "mocks"
 		}
 		chk := ostatic.CheckOutput(lt, t.SrcPath, dest, pkg, res.Stdout)
-		fs, _ := ostatic.Analyse(chk, ostatic.Request{Ifaces: []ostatic.NamePair{{Iface: r.spec.Iface.Name, Mock: r.spec.Name}}, Stub: r.spec.Stub, WithResets: r.spec.Resets,
+		pairs := []ostatic.NamePair{{Iface: r.spec.Iface.Name, Mock: r.spec.Name}}
+		for _, x := range r.more {
+			pairs = append(pairs, ostatic.NamePair{Iface: x.Iface.Name, Mock: x.Name})
+		}
+		fs, _ := ostatic.Analyse(chk, ostatic.Request{Ifaces: pairs, Stub: r.spec.Stub, WithResets: r.spec.Resets,
 			SkipEnsure: r.spec.SkipEnsure, Dest: dest, PkgName: pkg})
 		for _, f := range fs {
 			r.static = append(r.static, StaticFinding{Mock: r.spec.Name, Prop: f.Prop, Msg: f.Msg, Argv: r.args})
@@ -153,6 +201,7 @@ func Build(work string, mq *runner.Moq, t *gen.Tree, rng *rand.Rand, variants []
 			return nil, err
 		}
 		b.Mocks = append(b.Mocks, r.spec)
+		b.Mocks = append(b.Mocks, r.more...)
 	}
 	if len(b.Mocks) == 0 {
 		return b, fmt.Errorf("no usable mock in batch: %v", b.Skipped)
@@ -329,7 +378,12 @@ func (b *Batch) makeISync() error {
 	if out, err := exec.Command("cp", "-a", b.Root, b.IRoot).CombinedOutput(); err != nil {
 		return fmt.Errorf("copy: %v %s", err, out)
 	}
+	spliced := map[string]bool{}
 	for _, s := range b.Mocks {
+		if spliced[s.File] {
+			continue // a joint request: the file holds several mocks
+		}
+		spliced[s.File] = true
 		p := filepath.Join(b.IRoot, s.File)
 		src, err := os.ReadFile(p)
 		if err != nil {
@@ -354,7 +408,13 @@ func (b *Batch) makeISync() error {
 			done = true
 			break
 		}
-		if !done && len(s.Iface.Methods)+len(s.Iface.Embeds) > 0 {
+		anyMethod := false
+		for _, x := range b.Mocks {
+			if x.File == s.File && len(x.Iface.Methods)+len(x.Iface.Embeds) > 0 {
+				anyMethod = true
+			}
+		}
+		if !done && anyMethod {
 			return fmt.Errorf("%s: no sync import to redirect", s.File)
 		}
 		if err := os.WriteFile(p, src, 0o644); err != nil {
